@@ -87,9 +87,12 @@ class PathCtx:
             self.diff_log(self.solver, extra, r)
         return r
 
-    def add(self, c):
+    def add(self, c, keep_model=False):
+        """assert a constraint.  The cached model stays valid only when the caller knows it satisfies c."""
         self.solver.add(c)
         self.pc_len += 1
+        if not keep_model:
+            self.model_valid = False
 
     def get_model(self):
         if self.model is None or not self.model_valid:
@@ -107,11 +110,9 @@ class PathCtx:
             if not c:
                 raise Infeasible()
             return
-        self.add(c)
+        keep = self.model is not None and self.model_valid and z3.is_true(self.model.eval(c, model_completion=True))
+        self.add(c, keep_model=keep)
         if self.pos >= len(self.prefix):
-            if self.model is not None and self.model_valid:
-                if not z3.is_true(self.model.eval(c, model_completion=True)):
-                    self.model_valid = False
             self.get_model()
 
     def _remember(self, conds, chosen):
@@ -234,7 +235,7 @@ class PathCtx:
         self.pos += 1
         if forked:
             self.decisions.append(chosen)
-            self.add(conds[chosen])
+            self.add(conds[chosen], keep_model=True)
         else:
             self.decisions.append(~chosen)
         self._remember(conds, chosen)
@@ -263,6 +264,27 @@ class PathCtx:
             return True, None
         if r == z3.sat:
             return False, self.solver.model()
+        # unknown (typically non-linear arithmetic): look for a counterexample among a few models of the path
+        # condition (each one is a genuine solver model, so a hit is a real counterexample); no hit => inconclusive
+        self.solver.push()
+        try:
+            for _ in range(12):
+                rr = self._check()
+                if rr != z3.sat:
+                    break
+                m = self.solver.model()
+                if z3.is_false(m.eval(cond, model_completion=True)):
+                    return False, m
+                block = []
+                for d in m.decls():
+                    if d.arity() == 0:
+                        c = d()
+                        block.append(c != m[d])
+                if not block:
+                    break
+                self.solver.add(z3.Or(block[:24]))
+        finally:
+            self.solver.pop()
         raise Inconclusive('solver returned %s for an assertion' % r)
 
     def feasible(self, cond):
